@@ -554,6 +554,9 @@ class FieldCompiler(MessageCompiler):
         py_type = self.py_type
         if self.use_builtins:
             py_type = f"builtins.{py_type}"
+            # whether an earlier field shadows this type is only known while the
+            # fields are rendered, so request the import here as well
+            self.output_file.builtins_import = True
         if self.repeated:
             return self.typing_compiler.list(py_type)
         if self.optional:
